@@ -41,7 +41,7 @@ GROUPS["line_starts"] = {
     "repo": "crates/liwe/src/markdown/reader.rs (fn line_starts)",
     "quick": ["line_starts_n0", "line_starts_n1", "line_starts_n2", "line_starts_n3", "line_starts_n4"],
     "thorough": ["line_starts_n5", "line_starts_n6", "line_starts_n8"],
-    "kind": "bounded: text of n symbolic ASCII bytes (n = digit in the harness name), every arrangement of \\r, \\n and other codes < 128",
+    "kind": "bounded: text of n symbolic bytes (n = digit in the harness name) forming valid UTF-8 from 1- and 2-byte characters, every arrangement of \\r, \\n, other ASCII and U+0080..U+07FF",
 }
 GROUPS["graph_nodes"] = {
     "module": "graph::verif_kani",
